@@ -431,6 +431,10 @@ void getOffsetAndCount(const MultiTag &tag, const DataArray &array, const vector
     if (extents) {
         extent_size = extents.dataExtent();
     }
+    if (indices.empty()) {
+        // no positions requested (a tag without positions): nothing to compute, and no largest index to test
+        return;
+    }
     ndsize_t max_index = *max_element(indices.begin(), indices.end());
     if (max_index >= positions.dataExtent()[0] || (extents && max_index >= extents.dataExtent()[0])) {
         throw OutOfBounds("Index out of bounds of positions or extents!", 0);
